@@ -109,6 +109,7 @@ type double struct {
 	statusAt  int // delivery sequence number of its first delivered status (-1: none)
 	lastTop   int64 // height claimed by its last delivered status (-1: none)
 	asked     map[int64]int
+	pushed    map[int64]bool
 }
 
 func (d *double) SendEnvelope(e p2p.Envelope) bool    { d.n.enqueue(d, e.Message); return true }
@@ -135,6 +136,7 @@ type event struct {
 	d              *double
 	l              *lie
 	status         *bcproto.StatusResponse
+	pushed         bool
 }
 
 // delivery is one message actually handed to the reactor.
@@ -149,6 +151,8 @@ type delivery struct {
 	basicBad    bool
 	commitBad   bool // block whose LastCommit the reference does not accept fully for the canonical predecessor
 	isBlock     bool
+	pushed      bool // unsolicited: sent by a peer that had not been asked for this height
+	askedOther  bool // ... while the node had requested this height from somebody else
 }
 
 type node struct {
@@ -315,7 +319,7 @@ func (n *node) close() bool {
 }
 
 func (n *node) addDouble(spec *peerSpec) *double {
-	d := &double{Peer: p2pmock.NewPeer(nil), n: n, spec: spec, statusAt: -1, lastTop: -1, asked: map[int64]int{}}
+	d := &double{Peer: p2pmock.NewPeer(nil), n: n, spec: spec, statusAt: -1, lastTop: -1, asked: map[int64]int{}, pushed: map[int64]bool{}}
 	n.mu.Lock()
 	d.idx = len(n.doubles)
 	n.doubles = append(n.doubles, d)
@@ -323,7 +327,9 @@ func (n *node) addDouble(spec *peerSpec) *double {
 	p2p.AddPeerToSwitchPeerSet(n.sw, d)
 	n.bcR.AddPeer(d)
 	// a real peer's reactor announces its range as soon as the connection is up
-	n.schedule(event{due: n.tick + spec.StatusDelay, d: d, status: n.statusOf(spec, spec.Status, spec.StatusArg)})
+	if spec.Status != "none" {
+		n.schedule(event{due: n.tick + spec.StatusDelay, d: d, status: n.statusOf(spec, spec.Status, spec.StatusArg)})
+	}
 	if spec.Status2 != "" {
 		n.schedule(event{due: n.tick + spec.Status2At, d: d, status: n.statusOf(spec, spec.Status2, spec.StatusArg)})
 	}
@@ -402,7 +408,23 @@ func (n *node) step() {
 				}
 				n.schedule(event{due: n.tick + rs.Delay, prio: rs.Prio, d: m.d, l: l})
 			}
+			// pushers: the request went to somebody else - they answer it anyway, with a block of their own
+			if idx >= 0 && idx < len(n.sc.Heights) {
+				for _, p := range n.doubles {
+					ps := p.spec.Push
+					if ps == nil || p == m.d || p.isStopped() || p.pushed[msg.Height] || idx < ps.From || p.asked[msg.Height] > 0 {
+						continue
+					}
+					p.pushed[msg.Height] = true
+					pl := n.f.respondAs(respSpec{Kind: ps.Kind, Arg: ps.Arg}, msg.Height)
+					pl.Kind = "push:" + pl.Kind
+					n.schedule(event{due: n.tick + ps.Delay, d: p, l: pl, pushed: true})
+				}
+			}
 		case *bcproto.StatusRequest:
+			if m.d.spec.Status == "none" {
+				continue
+			}
 			kind := m.d.spec.Status
 			if m.d.spec.Status2 != "" {
 				kind = m.d.spec.Status2
@@ -476,6 +498,14 @@ func (n *node) step() {
 			n.deliver(e.d, &bcproto.NoBlockResponse{Height: e.l.Height})
 		default:
 			rec.Kind, rec.Height, rec.canon, rec.basicBad, rec.isBlock = e.l.Kind, e.l.Height, e.l.Canon, e.l.BasicBad, true
+			if e.pushed {
+				rec.pushed = true
+				for _, o := range n.doubles {
+					if o != e.d && o.asked[e.l.Height] > 0 {
+						rec.askedOther = true
+					}
+				}
+			}
 			if !e.l.Canon && !e.l.BasicBad && e.l.Height > n.sc.Initial && e.l.Height <= n.tip+1 {
 				if c, err := types.CommitFromProto(e.l.Block.LastCommit); err == nil {
 					rec.commitBad = refFullCommit(n.chain, e.l.Height-1, c) != nil
